@@ -25,6 +25,7 @@ env.quiet_logging()
 from rig.steprig import StepRig, make_flags, LoopDied      # noqa: E402
 from rig.threadrig import ThreadRig                         # noqa: E402
 from rig.peers import open_fds                              # noqa: E402
+from proxy.http.proxy import HttpProxyBasePlugin          # noqa: E402
 from checks import c04, c06                                 # noqa: E402
 
 PROPERTY = 'C10'
@@ -60,9 +61,17 @@ def _watched_os_close(fd: int) -> None:
 os.close = _watched_os_close        # type: ignore[assignment]   (monitor: passes every call through)
 
 
-def flags_all(timeout: Optional[int] = None, threaded: bool = False, pool: bool = False) -> Any:
+class LogTaker(HttpProxyBasePlugin):
+    """A plugin that takes over access logging the documented way: on_access_log() returns None."""
+
+    def on_access_log(self, context: Dict[str, Any]) -> Optional[Dict[str, Any]]:
+        return None
+
+
+def flags_all(timeout: Optional[int] = None, threaded: bool = False, pool: bool = False, logtaker: bool = False) -> Any:
     args = ['--enable-web-server', '--enable-reverse-proxy'] + (['--timeout', str(timeout)] if timeout else []) + (['--enable-conn-pool'] if pool else [])
-    return make_flags(args, plugins=[c04.RouteA, c04.RouteB, c04.Rev], cache_key='c10:%s:%s:%s' % (timeout, threaded, pool), threaded=threaded)
+    return make_flags(args, plugins=[c04.RouteA, c04.RouteB, c04.Rev] + ([LogTaker] if logtaker else []),
+                      cache_key='c10:%s:%s:%s:%s' % (timeout, threaded, pool, logtaker), threaded=threaded)
 
 
 def run_history(rig: StepRig, adv: Dict[str, Any], rng: random.Random, case: Dict[str, Any]) -> Dict[str, Any]:
@@ -240,7 +249,7 @@ def run_case(case: Dict[str, Any]) -> Dict[str, Any]:
     shim.S.reset()
     del _bad_closes[:]
     texc = monitors.watch_task_exceptions()
-    rig = StepRig(flags_all(pool=bool(case.get('pool'))), mode)
+    rig = StepRig(flags_all(pool=bool(case.get('pool')), logtaker=bool(case.get('logtaker'))), mode)
     viol: List[Dict[str, Any]] = []
     obs: Dict[str, int] = {}
     feat = '%s|%s|%s%s' % (adv['class'], adv.get('role', adv.get('kind', '-')), adv.get('upstream', adv.get('ending', '-')), '|conn-pool' if case.get('pool') else '')
@@ -445,6 +454,8 @@ def cases(tier: str, seed: int):
         if adv.get('class') in ('prefix', 'upstream', 'client-abort-with-queued-output', 'upstream-never-reads') and adv.get('role') in ('forward', 'forward-post', 'tunnel') and i % 3 == 1:
             d['pool'] = True
             d['reps'] = max(d['reps'], 3)
+        if i % 2 == 0:
+            d['logtaker'] = True        # a user plugin that handles the access log itself
         return d
     step = 3 if tier == 'quick' else 1
     for role in adversary.ROLE_SCRIPTS:
